@@ -18,7 +18,7 @@ TEMPLATES = {
     'A>B': {}, 'A>Pr': {}, 'Pc>B': {}, 'P11>Pr2': {}, 'Pr1>Pr2': {}, 'A>Psub': {}, 'Psub>B': {},
     'rmB': {}, 'rmPr': {}, 'rmP': {},
     'fillB': {}, 'fillP': {}, 'fillS': {},
-    'dilA': {},
+    'dilA': {}, 'dilAn': {},
     'mkC': {'creates': 'C'}, 'solW': {'creates': 'S'}, 'solA': {'creates': 'S'}, 'fromA': {'creates': 'F'},
     'solC': {'needs': 'C', 'creates': 'S'}, 'A>C': {'needs': 'C'}, 'C>B': {'needs': 'C'},
 }
@@ -74,7 +74,7 @@ class Cast:
             # at least 20 uL above what an untouched well holds: bake words its fill instruction by grouping wells
             # on "rounded amount added == 0", which would otherwise fork once per well
             return {'T': h.real(f"T{i}", 200, 5000)}
-        if t == 'dilA':
+        if t in ('dilA', 'dilAn'):
             return {'c': h.real(f"c{i}", Fr(1, 1000), 5)}
         if t in ('solW', 'solA', 'solC'):
             return {'q': h.real(f"q{i}", 1, 3000)}
@@ -89,7 +89,7 @@ class Cast:
 
 USES = {
     'A>Psub': 'AP', 'Psub>B': 'PB', 'A>B': 'AB', 'A>Pr': 'AP', 'Pc>B': 'PB', 'P11>Pr2': 'P', 'Pr1>Pr2': 'P', 'rmB': 'B', 'rmPr': 'P', 'rmP': 'P',
-    'fillB': 'B', 'fillP': 'P', 'fillS': 'P', 'dilA': 'A', 'mkC': '', 'solW': '', 'solA': 'A', 'fromA': 'A',
+    'fillB': 'B', 'fillP': 'P', 'fillS': 'P', 'dilA': 'A', 'dilAn': 'A', 'mkC': '', 'solW': '', 'solA': 'A', 'fromA': 'A',
     'solC': '', 'A>C': 'A', 'C>B': 'B',
 }
 
@@ -123,9 +123,9 @@ def declared_for(prog):
 
 def sub(P, which):
     """slices of slices (0-based relative indices): 'in' = well B1 via P[:, :][1:2, 0:1]; 'out' = well A2 via P[1:2, 1:2][0:1, 1:2]"""
-    if which == 'in':
-        return P[:, :][1:2, 0:1]
-    return P[1:2, 1:2][0:1, 1:2]
+    outer = P[:, :] if which == 'in' else P[1:2, 1:2]
+    _ = (outer.size, outer.shape)          # a caller may well look at the parent slice before slicing it again
+    return outer[1:2, 0:1] if which == 'in' else outer[0:1, 1:2]
 
 
 def sel(P, which):
@@ -164,6 +164,8 @@ def add_step(cast: Cast, rec, t, v, placeholders):
         rec.fill_to(P[1, :], water, f"{v['T']} uL")
     elif t == 'dilA':
         rec.dilute(A, salt, f"{v['c']} M", water)
+    elif t == 'dilAn':
+        rec.dilute(A, salt, f"{v['c']} M", water, 'A-diluted')
     elif t == 'mkC':
         placeholders['C'] = rec.create_container('C', '10 mL', [(water, f"{v['q']} uL")])
     elif t == 'solW':
@@ -236,6 +238,9 @@ def eager_step(cast: Cast, cur: dict, t, v):
         return ['P'], discarded
     if t == 'dilA':
         cur['A'] = cur['A'].dilute(salt, f"{v['c']} M", water)
+        return ['A'], discarded
+    if t == 'dilAn':
+        cur['A'] = cur['A'].dilute(salt, f"{v['c']} M", water, 'A-diluted')
         return ['A'], discarded
     if t == 'mkC':
         cur['C'] = C('C', '10 mL', [(water, f"{v['q']} uL")])
